@@ -3956,3 +3956,38 @@ _override("EQ-write-halt-sender-upgraded-once", [(KS, _HALT2, """            mat
                 None => return,
             }
 """)])
+
+# ---- third sweep batch (files no seed had touched)
+_CMF = "src/tx/optimistic/conflict_manager.rs"
+B("SW-C07-push-read-drops-reads-of-known-keyspace", "C07", "C07:R-C07.14:tx::optimistic::conflict_manager::ConflictManager::push_read", _CMF,
+  "            tbl.push(read);", "            let _ = (tbl, read);")
+B("SW-C07-mark-conflict-drops-first-key-of-keyspace", "C07", "C07:R-C07.14:tx::optimistic::conflict_manager::ConflictManager::mark_conflict", _CMF,
+  "            lock.entry(keyspace_id).or_default().insert(key);", "            lock.entry(keyspace_id).or_default();\n            let _ = key;")
+B("SW-C07-mark-read-records-nothing", "C07", "C07:R-C07.14:tx::optimistic::conflict_manager::ConflictManager::mark_read", _CMF,
+  "        self.push_read(keyspace_id, Read::Single(key));", "        let _ = (keyspace_id, key);")
+# (a half-open range recorded as Read::All — `&&` -> `||` — validates a SUPERSET of what was read: spurious conflicts, still serializable)
+E("EQ-C07-half-open-range-recorded-as-all", _CMF,
+  "        let read = if start == Bound::Unbounded && end == Bound::Unbounded {", "        let read = if start == Bound::Unbounded || end == Bound::Unbounded {", props=["C07"])
+B("SW-C07-range-hit-means-no-conflict", "C07", "C07:R-C07.15:tx::optimistic::conflict_manager::ConflictManager::has_conflict", _CMF,
+  """                                    .range::<Slice, _>((Bound::Included(start), Bound::Unbounded))
+                                    .next()
+                                    .is_some()""", """                                    .range::<Slice, _>((Bound::Included(start), Bound::Unbounded))
+                                    .next()
+                                    .is_none()""")
+B("SW-C07-read-all-conflicts-only-with-empty-write-set", "C07", "C07:R-C07.15:tx::optimistic::conflict_manager::ConflictManager::has_conflict", _CMF,
+  "                            if !other_conflict_keys.is_empty() {", "                            if other_conflict_keys.is_empty() {")
+B("SW-C07-excluded-start-recorded-as-included", "C07", "C07:R-C07.14:tx::optimistic::conflict_manager::ConflictManager::mark_range", _CMF,
+  """        let end = match range.end_bound() {
+            Bound::Included(k) => Bound::Included(k.clone()),
+            Bound::Excluded(k) => Bound::Excluded(k.clone()),""", """        let end = match range.end_bound() {
+            Bound::Included(k) => Bound::Excluded(k.clone()),
+            Bound::Excluded(k) => Bound::Excluded(k.clone()),""")
+B("SW-C16-compression-policy-encoded-back-to-front", "C16", "C16:R-C16.3", "src/keyspace/config/compression.rs",
+  "        for item in self.iter() {", "        for item in self.iter().rev() {")
+B("SW-C16-decoded-bloom-policy-not-pushed", "C16", "C16:R-C16.3", "src/keyspace/config/filter.rs",
+  "                    v.push(policy);", "                    let _ = policy;")
+B("SW-C16-pinning-flag-decoded-inverted", "C16", "C16:R-C16.3", "src/keyspace/config/pinning.rs",
+  "            v.push(b == 1);", "            v.push(b != 1);")
+B("SW-C02-batch-item-accepts-empty-key", "C02", "C02:R-C02.8:batch::item::Item::new", "src/batch/item.rs",
+  "        assert!(!k.is_empty());", "        let _ = k.is_empty();")
+E("EQ-pinning-flag-decoded-as-nonzero", "src/keyspace/config/pinning.rs", "            v.push(b == 1);", "            v.push(b != 0);", props=["C16"])
